@@ -195,7 +195,8 @@ def state_rule_for(pid):
                 # a helper that only reviewed writers call (an extracted store) is not a new writer
                 extra = [g for g in extra if not _only_called_from(W, g, set(known[fld]))]
                 # ... and a reviewed writer that no longer writes it (directly or through anything it calls) is a store that was deleted
-                lost = [g for g in known[fld] if g not in ws and not _still_writes(W, g, st, fld)]
+                borrow_only = {tuple(x) for x in _tab('state.json').get('borrow_only', [])}
+                lost = [g for g in known[fld] if g not in ws and not _still_writes(W, g, st, fld) and (st, fld, g) not in borrow_only]
                 if lost:
                     ob.fail('state|%s.%s|lost-writer' % (st, fld), '%s no longer writes %s.%s (neither itself nor through a function it calls): an update, reset or re-arm of that '
                             'field was removed' % (', '.join(lost), st, fld), None)
